@@ -113,7 +113,7 @@ def design_variants():
         return "is violated" in out or "Deadlock reached" in out
     body = ('---- MODULE SelfMod ----\nEXTENDS ModLoad\nMCCfgs == {[loads |-> [p1 |-> <<"m1">>, p2 |-> <<"m1">>, m1 |-> <<"m2">>, m2 |-> <<>>], roots |-> <<"p1","p2">>, bad |-> <<>>]}\n====\n')
     for walk, want in (("current", True), ("fixed", False)):
-        cfg = 'SPECIFICATION Spec\nCONSTANTS\n  Cfgs <- MCCfgs\n  Walk = "%s"\nINVARIANTS NoViolation OnceOnly\nPROPERTY Termination\nCHECK_DEADLOCK TRUE\n' % walk
+        cfg = 'SPECIFICATION Spec\nCONSTANTS\n  Cfgs <- MCCfgs\n  Walk = "%s"\n  EnvFail = "done"\nINVARIANTS NoViolation OnceOnly\nPROPERTY Termination\nCHECK_DEADLOCK TRUE\n' % walk
         rc, out, _ = vlib.tlc(os.path.join(S, "modload"), "SelfMod", cfg="SelfMod.cfg", workers=4, timeout=300, files={"SelfMod.tla": body, "SelfMod.cfg": cfg})
         ok("modload: TLC %s a deadlock on the acyclic shared-helper project with Walk = %s" % ("finds" if want else "finds no", walk), violated(out) == want)
     import fam_build
